@@ -39,7 +39,7 @@ func verifNewStorage(cacheDir string) *Default {
 // keeps serving its previous version, a refreshed list serves its new version, and
 // invalid entries never remove a valid one.
 //
-//verif:harness name=H13b-storage tier=quick,thorough bounds="index of two valid lists plus one entry from {none, duplicate key, invalid key, empty URL, non-HTTP URL, third valid list} sorting first, between or last in the index; two refresh rounds; every list download succeeds, fails with an error status or runs into the per-list timeout, independently in each round; the second round may be interrupted (context cancelled) during any one list" reach=done,kept-previous,replaced,invalid-entry,interrupted maxpaths=200000
+//verif:harness name=H13b-storage tier=quick,thorough bounds="index of two valid lists plus one entry from {none, duplicate key, invalid key, empty URL, non-HTTP URL, null element, third valid list} sorting first, between or last in the index; two refresh rounds; every list download succeeds, fails with an error status or runs into the per-list timeout, independently in each round; the second round may be interrupted (context cancelled) during any one list" reach=done,kept-previous,replaced,invalid-entry,interrupted maxpaths=200000
 //verif:assume symbolic build: the index download/JSON decoding (loadIndex) and the per-list download (rulelist.Refreshable.Refresh) are stubs with the chosen outcome; native replay uses a loopback HTTP server; blocked-service and safe-search refresh are not configured
 func VerifC13Storage() {
 	env := verifNewEnv13()
@@ -47,7 +47,7 @@ func VerifC13Storage() {
 	s := verifNewStorage(env.cacheDir())
 	env.attach(s)
 
-	third := verifChoice(6)
+	third := verifChoice(7)
 	keys := []string{"list_a", "list_b"}
 	valid := []string{"list_a", "list_b"}
 	// the index is sorted by key: the extra entry may sort first, between or last
@@ -64,8 +64,10 @@ func VerifC13Storage() {
 		valid = append(valid, posKey)
 	case 5:
 		keys = append(keys, "!ftp:"+posKey) // entry with a non-HTTP download URL
+	case 6:
+		keys = append(keys, "!null") // a null element of the JSON array
 	}
-	if third == 1 || third == 2 || third == 3 || third == 5 {
+	if third == 1 || third == 2 || third == 3 || third == 5 || third == 6 {
 		verifReach("invalid-entry")
 	}
 	env.setIndex(keys)
